@@ -52,6 +52,24 @@ func (c11) RunBatch(ctx *core.Ctx, batch int) {
 				ctx.Case(in, func() { c11Check(ctx, "d1", in, f) })
 			}
 		}
+		// hostile and generated default-field names (the name is taken verbatim: surrounding
+		// whitespace, control characters, quotes, keywords, numbers, 60-70 bytes, invalid UTF-8)
+		r := ctx.Rand("names")
+		names := []string{" dflt", "dflt ", "\tdflt", "dflt\n", "  ", " ", "\t", "\n", "my field\t", " a b ", "*", "?", "a*", "\\", "-", "+", "(", ":", "a:b", "\"", "'", "/", "/x/", "1.5", "-5", "NaN", "TO", "to", "not", "Or"}
+		for _, h := range gen.ValueDict(r, 150) {
+			if h != "" {
+				names = append(names, h)
+			}
+		}
+		sq := qt.NewSpace(qt.QuickLeaves())
+		for _, t := range sq.D1 {
+			in := qt.Print(t, qt.Style{})
+			for _, f := range names {
+				f := f
+				ctx.Case(in, func() { c11Check(ctx, "names", in, f) })
+			}
+		}
+		ctx.Count("default_field_names", int64(len(names)))
 		return
 	}
 	i := 0
@@ -215,7 +233,7 @@ func (c11) Finish(res *core.Result, cov map[string]any) []string {
 	cov["distinct_nontrivial"] = res.NDistinct("nontrivial")
 	cov["exhaustive"] = true
 	cov["wrap_cells_seen"] = res.NDistinct("wrap_cells")
-	cov["rule"] = "token sequences up to length L (exhaustive), depth<=2 trees, every depth<=1 tree over the full leaf alphabet and fuzzed inputs, each parsed with and without one of 7 default fields that do not occur in the query (plain, with space, non-ASCII, with a quote, 70 bytes, keyword-like, numeric-like). Acceptance must agree, erasing the f: scoping must give back the plain tree, and no bare term may remain as an operand or as the whole query. Non-trivial = distinct (query, field) whose result contains a scoped term."
+	cov["rule"] = "token sequences up to length L (exhaustive), depth<=2 trees, every depth<=1 tree over the full leaf alphabet and fuzzed inputs, each parsed with and without one of 7 default fields that do not occur in the query (plain, with space, non-ASCII, with a quote, 70 bytes, keyword-like, numeric-like); every depth<=1 tree over the small alphabet with ~400 hostile and generated default-field names (surrounding whitespace, whitespace only, control characters, syntax characters, keywords, numbers, invalid UTF-8). Acceptance must agree, erasing the f: scoping must give back the plain tree, and no bare term may remain as an operand or as the whole query. Non-trivial = distinct (query, field) whose result contains a scoped term."
 	floor(res.Counters["both_parse"] >= 1000 && res.Counters["both_fail"] >= 1000, &reasons, "both_parse %d both_fail %d", res.Counters["both_parse"], res.Counters["both_fail"])
 	// 8 parents (ROOT AND OR NOT MUST MUST_NOT FUZZY BOOST) x at least 4 leaf kinds
 	floor(res.NDistinct("wrap_cells") >= 32, &reasons, "parent x leaf-kind cells %d < 32", res.NDistinct("wrap_cells"))
